@@ -71,6 +71,11 @@ class Rewriter:
     """newline-preserving textual rewrites on a comment-stripped fragment"""
 
     unit_macros = {}
+    noabort = False
+
+    def abort_call(self):
+        # R7: abort (assume false after it) by default; in `noabort` functions reaching it is an obligation
+        return "vx_unreachable()" if self.noabort else "vx_abort()"
 
     def __init__(self, log, tags):
         self.log = log      # dict rule -> count
@@ -211,26 +216,26 @@ class Rewriter:
                 self.count("R3 transaction_format_err! -> return Err(..)")
             elif name in ("assert", "debug_assert"):
                 args = split_top_commas(self.macros(inner))
-                repl = "if !(%s) { vx_abort(); }" % args[0]
+                repl = "if !(%s) { %s; }" % (args[0], self.abort_call())
                 stmt = "block"
-                self.count("R7 assert! -> abort guard")
+                self.count("R7 assert! -> %s guard" % self.abort_call())
             elif name in ("assert_eq", "debug_assert_eq"):
                 args = split_top_commas(self.macros(inner))
-                repl = "if !((%s) == (%s)) { vx_abort(); }" % (args[0], args[1])
+                repl = "if !((%s) == (%s)) { %s; }" % (args[0], args[1], self.abort_call())
                 stmt = "block"
-                self.count("R7 assert_eq! -> abort guard")
+                self.count("R7 assert_eq! -> %s guard" % self.abort_call())
             elif name in ("assert_ne", "debug_assert_ne"):
                 args = split_top_commas(self.macros(inner))
-                repl = "if (%s) == (%s) { vx_abort(); }" % (args[0], args[1])
+                repl = "if (%s) == (%s) { %s; }" % (args[0], args[1], self.abort_call())
                 stmt = "block"
-                self.count("R7 assert_ne! -> abort guard")
+                self.count("R7 assert_ne! -> %s guard" % self.abort_call())
             elif name == "catch_panic":
                 args = split_top_commas(self.macros(inner))
                 repl = "vx_catch_panic(%s)?" % args[0]
                 self.count("R14 catch_panic!(e, ..) -> vx_catch_panic(e)? (Err models a caught panic)")
             elif name in ABORT_MACROS:
-                repl = "vx_abort()"
-                self.count("R7 %s! -> vx_abort()" % name)
+                repl = self.abort_call()
+                self.count("R7 %s! -> %s" % (name, repl))
             elif name in ("vec", "matches"):
                 # keep, but rewrite inside
                 new_inner = self.macros(inner)
@@ -283,6 +288,14 @@ class Rewriter:
             if n:
                 self.count("R5 map %s: /%s/ => %s" % (what, rx.pattern, repl), n)
         return text
+
+    def discarded_option_map(self, text):
+        """R17: statement `EXPR.map(|x| CALL);` whose result is discarded -> `if let Some(x) = EXPR { CALL; }`"""
+        pat = re.compile(r"(?m)^(\s*)([A-Za-z_][\w.]*)\.map\(\|(\w+)\|\s*([^;\n]*?)\);[ \t]*$")
+        def f(m):
+            self.count("R17 discarded Option::map with side effect -> if let")
+            return "%sif let Some(%s) = %s { %s; }" % (m.group(1), m.group(3), m.group(2), m.group(4))
+        return pat.sub(f, text)
 
     def closure_wildcards(self, text):
         """R15: closure parameter `_` -> a named, unused variable (Verus restriction)"""
@@ -499,6 +512,9 @@ class Unit:
         text = rw.attrs(text)
         text = rw.apply_maps(text, self.maps, "type")
         text = re.sub(r"\bpub\s*\(\s*(crate|super)\s*\)", "pub", text)
+        if re.match(r"\s*(struct|enum)\b", text):
+            text = "pub " + text.lstrip()
+            rw.count("R5 private type made pub (visibility only)")
         if it.kind == "struct" and it.body_open is not None:
             def mkpub(mm):
                 rw.count("R5 private field made pub (visibility only)")
@@ -564,6 +580,7 @@ class Unit:
         it = cands[0]
         fn_log = {}
         rw = Rewriter(fn_log, self.tags)
+        rw.noabort = bool(opts.get("noabort"))
         # split template block into contract, loops, proofs, subs
         contract, loops, proofs, subs, sigsubs = [], {}, [], [], []
         cur = ("contract", None)
@@ -636,12 +653,17 @@ class Unit:
         body = rw.attrs(body)
         body = rw.drop_use_lines(body)
         body = rw.closure_wildcards(body)
+        body = rw.discarded_option_map(body)
         body = rw.debug_guards(body)
         body = rw.macros(body)
         body = rw.tag_literals(body)
         if not opts.get("noabort"):
             body = rw.methods(body)
             body = rw.unwraps(body)
+        else:
+            body, n_exp = re.subn(r"\.\s*expect\s*\(\s*\"[^\"]*\"\s*\)", ".unwrap()", body)
+            if n_exp:
+                rw.count("R7 noabort: .expect(..) -> .unwrap() (obligation)", n_exp)
         body = rw.apply_maps(body, self.maps, "body")
         for rx, repl in subs:
             body, nsub = rx.subn(repl, body)
